@@ -402,7 +402,8 @@ def check_signer(ctx, S, M, rng, w):
                     ctx.event('signer-deleted-key-refused')
                     return
                 if s is not None:
-                    ctx.report('signer-for-deleted-key', 'get_signer returned a signer for a key that has been deleted (same arguments as before the deletion)',
+                    ctx.report('signer-for-deleted-key' + (':private-key-removal-failed' if k in getattr(S, 'failed_removals', ()) else ''),
+                               'get_signer returned a signer for a key that has been deleted (same arguments as before the deletion)',
                                dict(w, form='replayed-request', args={x: (rc.name_to_uri(list(y), canonical=True)) for x, y in a.items()}))
                 return
             k = rng.choice(gone)
@@ -413,7 +414,8 @@ def check_signer(ctx, S, M, rng, w):
                 ctx.event('signer-deleted-key-refused')
                 return
             if s is not None:
-                ctx.report('signer-for-deleted-key', 'get_signer returned a signer for a key that has been deleted', dict(w, form=form))
+                ctx.report('signer-for-deleted-key' + (':private-key-removal-failed' if k in getattr(S, 'failed_removals', ()) else ''),
+                           'get_signer returned a signer for a key that has been deleted', dict(w, form=form))
             return
         elif form == 'shared-locator':
             if len(alive) < 2:
@@ -446,6 +448,31 @@ def check_signer(ctx, S, M, rng, w):
         judge_signer(ctx, S, M, args, exp_key, exp_loc, dict(w, form=form), rng)
     except Exception as e:   # noqa
         ctx.report(f'signer-check-raises:{type(e).__name__}@{raising_site(e)[0]}', f'{e!r}', dict(w, form=form))
+
+
+def default_signer_probe(ctx, S, M, op, w, rng, phase):
+    """Around an operation that moves a default: the same requests before and after must each reflect the defaults in force
+    at the time of the request (a signer handed out earlier must not be replayed for equal arguments)."""
+    idn = op[1] if len(op) > 1 and op[1] in M.ids else None
+    probes = []
+    if idn is not None:
+        probes.append({'identity': list(idn)})
+        if len(op) > 2 and isinstance(op[2], tuple) and op[2] in M.ids[idn]['keys']:
+            probes.append({'key': list(op[2])})
+    if M.default_id is not None and M.default_id in M.ids:
+        probes.append({})
+    for args in probes:
+        i2 = T(args['identity']) if 'identity' in args else (M.find_key(T(args['key'])) if 'key' in args else M.default_id)
+        if i2 is None or i2 not in M.ids:
+            continue
+        k2 = T(args['key']) if 'key' in args else M.ids[i2]['default_key']
+        if k2 is None or k2 not in M.ids[i2]['keys']:
+            continue
+        loc = M.ids[i2]['keys'][k2]['default_cert']
+        if loc is None:
+            continue
+        ctx.event('signer-probe-around-default-change')
+        judge_signer(ctx, S, M, args, k2, loc, dict(w, form=f'probe-{phase}-default-change', probe=sorted(args)), rng)
 
 
 def judge_signer(ctx, S, M, args, exp_key, exp_loc, w, rng):
@@ -690,6 +717,22 @@ def resync(S, M):
     return N
 
 
+def replay_pinned(ctx, S, M, w):
+    """Every earlier request that pinned a key which is gone now must be refused from now on."""
+    for (a, k) in list(getattr(S, 'signer_history', [])):
+        if M.find_key(k) is None:
+            try:
+                sg = S.kc.get_signer(dict(a))
+            except Exception:   # noqa
+                ctx.event('signer-deleted-key-refused')
+                continue
+            if sg is not None:
+                ctx.report('signer-for-deleted-key' + (':private-key-removal-failed' if k in getattr(S, 'failed_removals', ()) else ''),
+                           'get_signer returned a signer for a key that has just been deleted (same arguments as before the deletion)',
+                           dict(w, args={x: rc.name_to_uri(list(y), canonical=True) for x, y in a.items()}))
+    S.signer_history = [(a, k) for (a, k) in getattr(S, 'signer_history', []) if M.find_key(k) is not None]
+
+
 def faulted_op(ctx, S, M, op, w, mode, armed, rng, sig):
     """Run op with the armed-th failure point raising; then either repeat the operation or crash and reopen.
     -> (model, fault reached?)"""
@@ -705,6 +748,10 @@ def faulted_op(ctx, S, M, op, w, mode, armed, rng, sig):
         S.ctl.reset()
         ctx.event('fault-injected:' + str(f).split('#')[0])
         sig.append(f'{op[0]}!{f}')
+        if str(f).startswith('os.remove') and op[0] in ('del_key', 'del_identity'):
+            # the removal of a private key file failed: which keys that concerns (see the open finding)
+            gone = [op[2]] if op[0] == 'del_key' else list(M.ids.get(op[1], {'keys': {}})['keys'])
+            S.failed_removals = getattr(S, 'failed_removals', set()) | set(gone)
         if mode == 'crash':
             S.crash()
             S.open()
@@ -772,12 +819,20 @@ def fault_sweep(ctx, rng):
                     for pre in (('touch', A), ('touch', Bn), ('new_key', A, 'ec', None, 'kc')):
                         apply_op(S, M, pre, rng, ctx)
                     op = builders(M)[oi]
+                    if op[0] in ('del_key', 'del_identity', 'del_cert'):
+                        # requests that pin the key, made while it is alive, are replayed after the (failed, repeated) deletion
+                        ka_ = next(iter(M.ids[A]['keys']))
+                        ca_ = M.ids[A]['keys'][ka_]['default_cert']
+                        if ca_ is not None:
+                            judge_signer(ctx, S, M, {'cert': list(ca_)}, ka_, ca_, {'sweep': True, 'form': 'pin-before-delete'}, rng)
+                            judge_signer(ctx, S, M, {'key': list(ka_)}, ka_, ca_, {'sweep': True, 'form': 'pin-before-delete'}, rng)
                     sig = []
                     w = {'sweep': True, 'op': [op[0]], 'failure_point': k, 'mode': mode}
                     M, reached = faulted_op(ctx, S, M, op, w, mode, k, rng, sig)
                     ctx.case(('sweep', op[0], oi, mode, k, tuple(sig)), nontrivial=True)
                     if reached:
                         ctx.event('fault-sweep-point')
+                        replay_pinned(ctx, S, M, w)
                         check_signer(ctx, S, M, rng, w)
                     S.close()
                 finally:
@@ -813,27 +868,21 @@ def run_history(ctx, rng, length, faults):
                 # dry count of the failure points of this operation on a scratch copy is not possible cheaply: arm a random early index
                 M, _ = faulted_op(ctx, S, M, op, w, rng.choice(['fault', 'fault', 'crash']), rng.randint(0, 7), rng, sig)
                 continue
+            moves_default = op[0] in ('set_default_key', 'set_default_cert', 'set_default_identity')
+            if moves_default:
+                default_signer_probe(ctx, S, M, op, w, rng, 'before')
             try:
                 apply_op(S, M, op, rng, ctx)
             except Exception as e:   # noqa
                 ctx.report(f'operation-raises:{op[0]}:{type(e).__name__}@{raising_site(e)[0]}', f'{op[0]} raised {e!r}', w)
                 M = resync(S, M)
                 continue
+            if moves_default:
+                default_signer_probe(ctx, S, M, op, w, rng, 'after')
             sig.append(op[0])
             ctx.event('op-' + op[0])
             if op[0] in ('del_key', 'del_identity'):
-                # every earlier request that pinned a key which is gone now must be refused from now on
-                for (a, k) in list(getattr(S, 'signer_history', [])):
-                    if M.find_key(k) is None:
-                        try:
-                            sg = S.kc.get_signer(dict(a))
-                        except Exception:   # noqa
-                            ctx.event('signer-deleted-key-refused')
-                            continue
-                        if sg is not None:
-                            ctx.report('signer-for-deleted-key', 'get_signer returned a signer for a key that has just been deleted (same arguments as before the deletion)',
-                                       dict(w, args={x: rc.name_to_uri(list(y), canonical=True) for x, y in a.items()}))
-                S.signer_history = [(a, k) for (a, k) in getattr(S, 'signer_history', []) if M.find_key(k) is not None]
+                replay_pinned(ctx, S, M, w)
             check_invariants(ctx, S, M, w, op[0])
             if rng.random() < 0.3:
                 check_signer(ctx, S, M, rng, w)
@@ -845,16 +894,77 @@ def run_history(ctx, rng, length, faults):
         shutil.rmtree(root, ignore_errors=True)
 
 
+def several_stores(ctx, rng):
+    """Several stores (each with its own directory) open in one process, holding identities / keys of the SAME names (explicit
+    key ids): every store signs with its own private keys, also after the other store created, replaced or deleted its key of
+    that name and after close / reopen; a store that does not hold the key hands out no signer for it."""
+    for rep in range(ctx.n(3, 60)):
+        roots = [tempfile.mkdtemp(prefix='nvf-kc-') for _ in range(3)]
+        try:
+            SA, SB, SC = (Store(r) for r in roots)
+            MA, MB, MC = Model(), Model(), Model()
+            idn = T([C(b'id'), C(b'same')])
+            steps = [(SA, MA, 'A'), (SB, MB, 'B')]
+            if rng.random() < 0.5:
+                steps.reverse()
+            kid = rng.choice([b'k1', b'shared'])
+            for S, M, lab in steps:
+                apply_op(S, M, ('touch', idn), rng, ctx)
+                apply_op(S, M, ('new_key', idn, 'ec', kid, 'kc'), rng, ctx)
+            kname = idn + (C(b'KEY'), C(kid))
+            w = {'stores': 'A,B,C in one process', 'key': rc.name_to_uri(list(kname), canonical=True)}
+
+            def probe(S, M, lab, phase):
+                if kname in M.ids.get(idn, {'keys': {}})['keys']:
+                    loc = M.ids[idn]['keys'][kname]['default_cert']
+                    for args in ({'key': list(kname)}, {'cert': list(loc)}, {'identity': list(idn), 'key_locator': [C(b'loc')]}):
+                        ek = kname if 'identity' not in args else M.ids[idn]['default_key']
+                        el = loc if 'key_locator' not in args else T(args['key_locator'])
+                        if 'identity' in args and ek != kname:
+                            continue
+                        judge_signer(ctx, S, M, args, ek, el, dict(w, store=lab, phase=phase, form='several-stores'), rng)
+            for phase in ('both-created',):
+                probe(SA, MA, 'A', phase)
+                probe(SB, MB, 'B', phase)
+                probe(SA, MA, 'A', phase + '-again')
+            certA = MA.ids[idn]['keys'][kname]['default_cert']
+            # a store that never held the key
+            for args in ({'cert': list(certA)}, {'key': list(kname)}):
+                try:
+                    sg = SC.kc.get_signer(dict(args))
+                except Exception:   # noqa
+                    ctx.event('foreign-store-signer-refused')
+                    continue
+                if sg is not None:
+                    ctx.report('signer-from-store-without-the-key', 'a store that does not hold the key handed out a signer for it (another store in the same process holds a key of that name)',
+                               dict(w, args=sorted(args)))
+            # reopen A, delete in B, probe again
+            SA.close()
+            SA.open()
+            probe(SA, MA, 'A', 'after-reopen')
+            apply_op(SB, MB, ('del_key', idn, kname, 'kc'), rng, ctx)
+            replay_pinned(ctx, SB, MB, dict(w, store='B'))
+            probe(SA, MA, 'A', 'after-other-store-deleted-its-key')
+            ctx.event('several-stores-history')
+            ctx.case(('several-stores', rep, kid), nontrivial=True)
+            for S in (SA, SB, SC):
+                S.close()
+        finally:
+            for r in roots:
+                shutil.rmtree(r, ignore_errors=True)
+
+
 def run(ctx):
     ctx.rule = RULE
     rng = ctx.rng
+    several_stores(ctx, rng)
     if ctx.shard == 0:
         fault_sweep(ctx, rng)
     n = ctx.n(80, 20000)
     for i in range(n):
         run_history(ctx, rng, rng.randint(5, 40), faults=(i % 3 == 2))
     need = ['invariant-scan', 'signer-judged', 'operation-repeated', 'crash-reopen', 'op-del_key', 'op-del_identity', 'op-reopen',
-            'op-import_cert', 'signer-deleted-key-refused', 'set-default-with-nonmember-name']
+            'op-import_cert', 'signer-deleted-key-refused', 'set-default-with-nonmember-name', 'signer-probe-around-default-change', 'several-stores-history', 'foreign-store-signer-refused']
     if ctx.shard == 0:
         need.append('fault-sweep-point')
     for k in need:
